@@ -219,6 +219,15 @@ func runC12Bubble(e *Env, p *Program, res *Result) {
 	}
 	e.FS = NewFaultStore(nil, nil)
 	e.FS.Locked = true
+	// the database file as it was when a snapshot upload began (file I/O only, no
+	// memory shared with other tasks): decides the fact of finding F7
+	e.FS.SnapshotSource = func() *State {
+		img, err := os.ReadFile(e.DBPath)
+		if err != nil || e.Led == nil || e.Led.PageSize == 0 {
+			return nil
+		}
+		return StateFromImage(img, e.Led.PageSize)
+	}
 	if p.Params["sql_seam"] == 1 {
 		installSQLSeam() // every SQL statement of litestream is a scheduling point
 	} else {
@@ -594,9 +603,13 @@ type archClient struct {
 
 func (a *archClient) WriteLTXFile(ctx context.Context, level int, minTXID, maxTXID ltx.TXID, r io.Reader) (*ltx.FileInfo, error) {
 	var buf bytes.Buffer
+	var dbImage *State
+	if level == litestream.SnapshotLevel && a.fs.SnapshotSource != nil {
+		dbImage = a.fs.SnapshotSource()
+	}
 	info, err := a.ReplicaClient.WriteLTXFile(ctx, level, minTXID, maxTXID, io.TeeReader(r, &buf))
 	if err == nil {
-		a.fs.archive(level, minTXID, maxTXID, buf.Bytes(), -1, info.CreatedAt)
+		a.fs.archiveWithImage(level, minTXID, maxTXID, buf.Bytes(), -1, info.CreatedAt, dbImage)
 	}
 	return info, err
 }
